@@ -28,9 +28,12 @@
    bodies, abstract interface bodies).
 
    The names a scope obtains by USE association are an input here (s_imports): property C06.
-   Outside the model: submodule inheritance of the ancestor's tables, pairing of separate module
-   procedures, generic type-bound bindings (resolved among the type's own bindings), inherited
-   components/bindings, namelists and call chains (all_vars), enumerators, common blocks. *)
+   A submodule (KSub) is a unit whose dictionaries, after its own declarations have been entered,
+   are updated WITH those of its parent submodule if it has one, else of its ancestor module
+   (FortranCodeUnit.correlate 1209-1220); the finished units are kept in st_units.
+   Outside the model: pairing of separate module procedures with their interfaces, generic
+   type-bound bindings (resolved among the type's own bindings), inherited components/bindings,
+   namelists and call chains (all_vars), enumerators, common blocks. *)
 From Ford Require Import Base.Str.
 
 Inductive cls := CProc | CAbs | CType.
